@@ -3685,16 +3685,15 @@ class Fused(Blockwise):
     def _task(self, index):
         graph = {self._name: (self.exprs[0]._name, index)}
         for _expr in self.exprs:
+            # When _expr is being broadcasted, we only
+            # want to define a fused task for index 0
+            i = 0 if self._broadcast_dep(_expr) else index
             if isinstance(_expr, Fused):
-                subgraph, name = _expr._task(index)[1:3]
+                subgraph, name = _expr._task(i)[1:3]
                 graph.update(subgraph)
-                graph[(name, index)] = name
-            elif self._broadcast_dep(_expr):
-                # When _expr is being broadcasted, we only
-                # want to define a fused task for index 0
-                graph[(_expr._name, 0)] = _expr._task(0)
+                graph[(name, i)] = name
             else:
-                graph[(_expr._name, index)] = _expr._task(index)
+                graph[(_expr._name, i)] = _expr._task(i)
 
         for i, dep in enumerate(self.dependencies()):
             graph[self._blockwise_arg(dep, index)] = "_" + str(i)
